@@ -53,8 +53,50 @@ NEEDS = {
     "C19B": "split applied to a corpus whose size differs from the reference's (after false negatives / false positives)",
     "C20A": "one run with >= 2 files, -d numerical, a later file whose categories are a strict subset of an earlier file's with another numeric range",
     "C20B": "exactly --seed 0",
+    # ---- second round (sub-agents were told what the first round had tried)
+    "C01C": "a history on one continuum: best alignment, remove() with no add after it, best alignment again with the same dissimilarity (stale remembered candidates)",
+    "C01D": "a unit labelled with the empty string '' (not None)",
+    "C02C": "a history: best alignment, remove(), the same call again with the same dissimilarity instance (stale memoised alignment)",
+    "C02D": "GLPK fallback and a unit with two partners from one other annotator, both closer than delta_empty",
+    "C03C": "the soft path, a soft optimum that re-uses a unit, and a recomputation through compute_disorder",
+    "C03D": "a dissimilarity with its own category table whose labels are not all present in the continuum (also: every fast-alignment window)",
+    "C04C": "two ordinal dissimilarities in one process over the same label set and delta_empty but other positions/order",
+    "C04D": "the same table-less dissimilarity object and the same continuum object: a computation, an add() of a new category that does not sort last, a second computation",
+    "C05C": "soft or fast mode, a precision level, and N_required > n_samples (second batch)",
+    "C05D": "identical, perfectly regular annotators with a single category and the statistical sampler (all chance disorders 0)",
+    "C06C": "one explicit sampler object passed to compute_gamma twice with the seed re-fixed",
+    "C06D": "fast=True on a continuum large enough for a finite window, and a schedule in which the best-alignment job starts late",
+    "C07C": "the same dissimilarity object used on two continua with different category sets",
+    "C07D": ">= 3 annotators and a candidate with one pair between 7 and 9 delta_empty (n=3) whose other pairs are cheap",
+    "C08C": "cylp not importable and delta_empty != 1",
+    "C08D": "GLPK fallback, >= 3 annotators, overlapping units competing for the same partners (fractional LP optimum)",
+    "C09C": ">= 3 annotators, an optimal unitary alignment containing two far units, held by the alphabetically first annotators in one naming only",
+    "C09D": ">= 3 annotators with a fractional LP relaxation and a near-optimal alternative within 1 %",
+    "C10C": "the fallback path of the fast alignment (no unitary alignment of a window ends before the limit)",
+    "C10D": ">= 3 annotators, one annotator still has units after the others ran out, window not covering everything",
+    "C11C": "delta_empty != 1 and two get_best_soft_alignment calls with the same dissimilarity object on the same continuum content",
+    "C11D": ">= 2 zero-disorder candidates sharing units (positional-only with several labels on one segment, or categorical-only)",
+    "C12C": "alpha * delta_empty < 1 and co-aligned real units whose segments do not overlap",
+    "C12D": "a unit labelled '' and a gamma-k request for ''",
+    "C13C": "copy()/merge()/+ then a NEW label added to one of the two objects, categories of the other re-read exactly",
+    "C13D": "a rejected zero-length add for an annotator not yet present, then a re-check of the annotators",
+    "C14C": "corpus_shuffle(include_ref=True) then a change of the reference annotator's units in the returned corpus",
+    "C14D": "merging in an operand that has an annotator WITHOUT units unknown to the receiver, then adding units for it",
+    "C15C": "one sampler initialised with weights, then init_sampling_custom without weights",
+    "C15D": "a strict ground-truth subset on a reference whose annotators have unequal unit counts",
+    "C16C": "one sampler object initialised on a continuum with short units, then on one with longer units",
+    "C16D": "a strict ground-truth subset whose units are shorter on average than the whole reference's",
+    "C17C": "a history: strict check, remove() on the same continuum object, strict check again",
+    "C17D": "a continuum with zero units passed as the explicit argument of check()",
+    "C18C": "a zero-length CSV row whose annotator or label appears in no valid row",
+    "C18D": "a history: read a TextGrid/ELAN path, rewrite the file at that path, read it again",
+    "C19C": "a shift (or false positives) first, then false negatives emptying an annotator",
+    "C19D": "reference units barely longer than the segment precision and split=True",
+    "C20C": "-b 0 with -d levenshtein/numerical and -c or -k",
+    "C20D": ">= 2 different input files with -k and -o or -j",
 }
-EXTRA_CHECKS = {"C09B": ["C04", "C02"], "C04B": ["C14"], "C10A": ["C01"], "C14B": ["C13"], "C01B": ["C08"], "C08A": ["C01"]}
+EXTRA_CHECKS = {"C09B": ["C04", "C02"], "C04B": ["C14"], "C10A": ["C01"], "C14B": ["C13"], "C01B": ["C08"], "C08A": ["C01"],
+                "C04D": ["C02", "C07"], "C07C": ["C02"], "C09C": ["C07"], "C09D": ["C02"], "C14D": ["C13"], "C13C": ["C14"], "C18C": ["C13"]}
 
 
 def sh(cmd):
@@ -62,7 +104,7 @@ def sh(cmd):
 
 
 def main():
-    only = sys.argv[1:]
+    only = [a for a in sys.argv[1:] if not a.startswith("--")]
     rows = []
     for sid in sorted(os.listdir(os.path.join(VERIF, "seeded"))):
         d = os.path.join(VERIF, "seeded", sid)
@@ -77,6 +119,8 @@ def main():
             meta["official_run"] = {"error": "patch does not apply to /repo HEAD"}
             json.dump(meta, open(os.path.join(d, "meta.json"), "w"), indent=1)
             rows.append((sid, "PATCH DOES NOT APPLY", ""))
+            continue
+        if "--missing" in sys.argv and meta.get("official_run", {}).get("results"):
             continue
         props = [meta["breaks_property"]] + EXTRA_CHECKS.get(sid, [])
         out = f"/tmp/confirm_{sid}"
